@@ -500,6 +500,113 @@ Theorem C06_p2j_walk_f_total :
 Proof. exact p2j_walk_f_total. Qed.
 Print Assumptions C06_p2j_walk_f_total.
 
+(* ================================================================================================================
+   Third part: the remaining decoders as explicit cursors over ARBITRARY bytes (proofs/RobustThriftWalk.v,
+   proofs/RobustProtoWalk.v): started at any position inside the buffer they answer Some/None (Ok/Err), the position
+   they hand back is inside the buffer and strictly further, what they allocate (output text, DOM nodes) is linear in
+   the bytes consumed, and their fuel is never the reason for an answer.
+   ================================================================================================================ *)
+From DG Require Import ThriftDom ProtoGenericAlg T2JUnset RobustThriftWalk RobustProtoWalk.
+
+(* ---- conv/t2j walk ---- *)
+Theorem C06_t2j_walk_cursor :
+  forall fd o n d bs txt r, t2j_walk_gen fd o n d bs = Some (txt, r) ->
+  exists c, (1 <= c <= length bs)%nat /\ r = skipn c bs.
+Proof. intros. eapply t2j_walk_cursor; eassumption. Qed.
+Print Assumptions C06_t2j_walk_cursor.
+
+(* t2j_at: the walk started at cursor c of the buffer, answering (text, new cursor) *)
+Theorem C06_t2j_at_in_bounds :
+  forall fd o n d bs c txt c', (c <= length bs)%nat -> t2j_at fd o n d bs c = Some (txt, c') ->
+  (c < c' <= length bs)%nat /\ exists r, t2j_walk_gen fd o n d (skipn c bs) = Some (txt, r) /\ r = skipn c' bs.
+Proof. intros. eapply t2j_at_in_bounds; eassumption. Qed.
+Print Assumptions C06_t2j_at_in_bounds.
+
+(* allocation: the text is linear in the consumed bytes. F = longest float lexeme the printer emits; the factor
+   (1 + most fields of any struct of the descriptor) pays for handleUnsets, which at a STOP byte writes a zero value for
+   every unset required / default field when WriteRequireField / WriteDefaultField are on *)
+Theorem C06_t2j_output_linear :
+  forall fd o F n d bs txt r, (forall b, (length (fd b) <= F)%nat) ->
+  t2j_walk_gen fd o n d bs = Some (txt, r) ->
+  (length txt + 1 <= (13 + F + desc_maxkey d) * (1 + desc_maxfields d) * (length bs - length r))%nat.
+Proof. intros. eapply t2j_walk_output_linear; eassumption. Qed.
+Print Assumptions C06_t2j_output_linear.
+
+(* with those two options off: (13 + F + longest quoted key) characters per consumed byte *)
+Theorem C06_t2j_output_linear_nowrite :
+  forall fd o F n d bs txt r, (forall b, (length (fd b) <= F)%nat) ->
+  T2JUnset.o_write_required o = false -> T2JUnset.o_write_default o = false ->
+  t2j_walk_gen fd o n d bs = Some (txt, r) ->
+  (length txt + 1 <= (13 + F + desc_maxkey d) * (length bs - length r))%nat.
+Proof. intros. eapply t2j_walk_output_linear_nowrite; eassumption. Qed.
+Print Assumptions C06_t2j_output_linear_nowrite.
+
+(* ---- thrift/generic path search from any cursor ---- *)
+Theorem C06_gbp_at_in_bounds :
+  forall t bs c p t' s e, (c <= length bs)%nat -> gbp_at t bs c p = GFound t' s e ->
+  Z.of_nat c <= s /\ s < e /\ e <= zlen bs.
+Proof. intros. eapply gbp_at_in_bounds; eassumption. Qed.
+Print Assumptions C06_gbp_at_in_bounds.
+
+(* ---- thrift DOM load (PathNode.Load) ---- *)
+Theorem C06_dom_load_child_cursor :
+  forall d rec ns t bs x r, load_child d rec ns t bs = Some (x, r) -> suffix_of r bs /\ (length r < length bs)%nat.
+Proof. intros. eapply load_child_suffix; eassumption. Qed.
+Print Assumptions C06_dom_load_child_cursor.
+
+Theorem C06_dom_load_total :
+  forall f d rec ns t bs, (length bs < f)%nat -> (length bs <= d)%nat -> load_f f d rec ns t bs = load rec ns t bs.
+Proof. intros. apply load_total; assumption. Qed.
+Print Assumptions C06_dom_load_total.
+
+(* allocation: at most one node per byte of input, and every node's raw slice is a slice OF the buffer *)
+Theorem C06_dom_load_nodes_linear :
+  forall rec ns t bs x, load rec ns t bs = Some x -> (tree_nodes x <= length bs)%nat.
+Proof. intros. eapply load_nodes_linear; eassumption. Qed.
+Print Assumptions C06_dom_load_nodes_linear.
+
+Theorem C06_dom_load_raw_inside :
+  forall rec ns t bs x, load rec ns t bs = Some x -> tree_all (fun y => slice_of (t_raw y) bs) x.
+Proof. intros. eapply load_raw_inside; eassumption. Qed.
+Print Assumptions C06_dom_load_raw_inside.
+
+(* ---- conv/p2j walk ---- *)
+Theorem C06_p2j_field_cursor :
+  forall fl o rec fd wt bs x r, P2JBytes.walk_field fl o rec fd wt bs = Some (x, r) ->
+  exists c, (1 <= c <= length bs)%nat /\ r = skipn c bs.
+Proof. intros. eapply walk_field_cursor; eassumption. Qed.
+Print Assumptions C06_p2j_field_cursor.
+
+Theorem C06_p2j_output_linear :
+  forall fl F fuel o Sc name bs txt, (forall b, (length (fl b) <= F)%nat) -> bytes_ok bs ->
+  p2j_walk_gen fl fuel o Sc name bs = Some txt ->
+  (length txt <= (72 + F + keys_max Sc) * length bs + 2)%nat.
+Proof. intros. eapply p2j_output_linear; eassumption. Qed.
+Print Assumptions C06_p2j_output_linear.
+
+(* ---- proto/generic path search (ProtoGenericAlg: explicit cursor, distinct Panic results) ---- *)
+Theorem C06_pgbp_skip_never_panics : forall buf rd wt, askip buf rd wt <> SkPanic.
+Proof. intros. apply askip_never_panics. Qed.
+Print Assumptions C06_pgbp_skip_never_panics.
+
+(* with the repair of finding 710 the path search has no panic result, for every buffer, schema and path *)
+Theorem C06_pgbp_no_panic :
+  forall fx S root buf p, f710 fx = true -> gbp fx S root buf p <> GPanicA.
+Proof. intros. apply gbp_no_panic; assumption. Qed.
+Print Assumptions C06_pgbp_no_panic.
+
+(* gbp_x: the search with x extra units of fuel in every loop *)
+Theorem C06_pgbp_fuel_independent :
+  forall x fx S root buf p, bytes_ok buf -> no_double_index p -> gbp_x x fx S root buf p = gbp fx S root buf p.
+Proof. intros. apply gbp_fuel_independent; assumption. Qed.
+Print Assumptions C06_pgbp_fuel_independent.
+
+(* the field search hands back offsets inside the buffer, at or behind the cursor it was given *)
+Theorem C06_pgbp_search_field_in_bounds :
+  forall buf, bytes_ok buf -> forall f rd id lim, inb buf rd -> sres_fwd buf rd (search_field_id f buf rd id lim).
+Proof. intros. apply search_field_id_inb; assumption. Qed.
+Print Assumptions C06_pgbp_search_field_in_bounds.
+
 (* ================================================================== (G) skipping primitives from the Go source *)
 (* the cursor machines of Robust.v against the definitions go2coq generates from thrift/binary_skip.go (gen/Gen_thrift.v) and
    proto/binary/binary_skip.go (gen/Gen_protoskip.v) on every build *)
